@@ -111,6 +111,12 @@ func (w *world) pump(n int, mask int64) {
 			w.nAcc++
 			w.d.Nontriv = w.nAcc >= 6
 			w.d.Probe("honest-accepted:" + h.kind)
+			if w.prop == "C08" {
+				// no-panic "after any history": the messages derived from the one just accepted (replays, other
+				// root, earlier slot/round, second proposal with longer/shorter/other data) reach the branches
+				// that compare an input with the signer's record
+				w.mutantsAfter(h, mask)
+			}
 			if w.prop == "C09" {
 				w.mutantsAfter(h, mask)
 				// per-signer history must survive other traffic of the same signer: after an accepted
